@@ -371,6 +371,9 @@ fn classify(msg: &str) -> (String, String) {
         (clause, rest.to_string())
     } else if msg.contains("Causality violation") || msg.contains("Concurrent") {
         ("data-race-detected-by-loom".into(), msg.to_string())
+    } else if msg.contains("exceeded maximum number of branches") {
+        // loom's way of saying that a thread never gets out of a loop under this schedule
+        ("operation-never-returns".into(), msg.to_string())
     } else if msg.contains("deadlock") {
         ("deadlock".into(), msg.to_string())
     } else if msg.contains("assertion") || msg.contains("assert") {
@@ -447,6 +450,8 @@ pub fn run(group: &str, tier: &str, rep: &mut Report) -> bool {
             }
             if let Some(msg) = r["failure"].as_str() {
                 let (clause, detail) = classify(msg);
+                // an operation that never returns (or a deadlock) of the queue programs is C04's clause
+                let prop = if group == "loom.c03" && matches!(clause.as_str(), "operation-never-returns" | "deadlock") { "C04" } else { prop };
                 rep.violation_for(prop, &format!("{group}/{clause}/{name}:{class}"),
                     format!("{name} ({what}), steal start {choice}, preemption bound {pb}, failing schedule #{n}: {detail}"),
                     json!({"engine":"loomq","scenario":group,"sub":name,"preemption_bound":pb,"choice":choice,"checkpoint":ck}));
